@@ -145,12 +145,12 @@ def config_text(base, lib):
     return render.render_graph_tokens(base) + "." + lib["text"]
 
 
-def config_record(base, lib, legacy):
+def config_record(base, lib, legacy, ctor="from_string"):
     text = config_text(base, lib)
     all_atom = not lib["coarse"]
-    obs = project.run_resolve(text, last_all_atom=all_atom, legacy=legacy)
+    obs = project.run_resolve(text, last_all_atom=all_atom, legacy=legacy, ctor=ctor)
     step = obs["steps"][0] if obs["steps"] else None
-    return {"mode": "resolve", "text": text, "level": 0, "basekind": "tokens", "base": base,
+    return {"mode": "resolve", "text": text, "level": 0, "basekind": "tokens", "base": base, "ctor": ctor,
             "basegraph": {"names": [], "edges": []}, "frags": lib["frags"], "fragcoarse": lib["coarse"],
             "legacy": legacy, "allAtom": all_atom,
             "obs": slim_obs(step, obs["outcome"]), "lib": lib["name"]}
@@ -246,7 +246,7 @@ def cut_corpus(rng, n_random, tier, share=0.0, kinds=("$", "<>")):
             mols.append((smi, molgen.read_reference(smi)))
         except Exception:
             continue
-    per = 2 if tier == "quick" else 12
+    per = 4 if tier == "quick" else 16
     for smi, g in mols:
         n = g.number_of_nodes()
         if n <= 4:
@@ -362,8 +362,9 @@ def judge(check, pid, records, verdicts, nontrivial=None, only=None):
 def config_records(check, tier, with_twin=False):
     cfgs = enumerate_configs(check, tier)
     recs = []
-    for base, lib, legacy in cfgs:
-        r = config_record(base, lib, legacy)
+    ctors = ("from_string", "from_graph", "from_fragment_dicts")
+    for i, (base, lib, legacy) in enumerate(cfgs):
+        r = config_record(base, lib, legacy, ctors[i % 3])
         if with_twin:
             names = {f[0] for f in lib["frags"]}
             if has_virtual_or_zero(base, names) and r["obs"]["outcome"] == "ok":
@@ -507,3 +508,16 @@ def run_c20_resolver(check, tier):
     judge(check, "C20", recs, verdicts, only=lambda r, v: v.get("expected") != "ok",
           nontrivial=lambda r, v: True)
     check.extra["resolver_fault_configs"] = sum(1 for v in verdicts if v.get("dom") and v.get("expected") != "ok")
+
+
+def run_c12(tier):
+    check = Check("C12", tier=tier)
+    check.rule = (CFG_RULE.format(n=3 if tier == "quick" else 4) + " (structural clauses: keys 0..n-1, contiguous blocks, atom "
+                  "names); plus every call history of ResolverAPI.tla up to the bound (three constructors, three drivers, "
+                  "objects sharing fragment-library objects, permuted fragment definitions) replayed in fresh processes under "
+                  "several PYTHONHASHSEED values and compared digest-by-digest with a fresh-process reference; non-trivial = "
+                  "more than one coarse node / history of more than two events")
+    run_c12_structural(check, tier)
+    from . import history
+    history.run_histories(check, tier, ["X_Behaviour", "C12_Function", "C12_LibraryUntouched"])
+    return check.finish()
